@@ -6,7 +6,9 @@ import (
 	"path/filepath"
 
 	"github.com/elnosh/gonuts/cashu"
+	"github.com/decred/dcrd/dcrec/secp256k1/v4"
 	"github.com/elnosh/gonuts/cashu/nuts/nut05"
+	"github.com/elnosh/gonuts/cashu/nuts/nut12"
 	"github.com/elnosh/gonuts/wallet"
 	wstorage "github.com/elnosh/gonuts/wallet/storage"
 
@@ -73,8 +75,47 @@ func (ww *WW) newToken(mint, from, locked string, proofs cashu.Proofs, v3, nodle
 		}
 	}
 	tr := &TokenRec{ID: id, Mint: mint, Proofs: cp, From: from, Locked: locked, Token: tok}
+	if !nodleq {
+		ww.DleqLog = append(ww.DleqLog, ww.dleqFacts(mint, tok.Proofs(), "wallet-token", id)...)
+	}
 	ww.Tokens[id] = tr
 	return tr
+}
+
+// dleqFacts lists, for each proof as the recipient of a token decodes it, the NUT-12 proof the sending wallet attached
+// (e, s, r) with the key the mint publishes for that keyset and amount, and what the implementation's third-party
+// verification says about it.  The reference verdict is computed by TLC (Bdhke!ProofDleqVerify).
+func (ww *WW) dleqFacts(mint string, proofs cashu.Proofs, class, where string) []map[string]any {
+	res := []map[string]any{}
+	ms := ww.Mints[mint]
+	if ms == nil {
+		return res
+	}
+	for _, p := range proofs {
+		var A string
+		var key *secp256k1.PublicKey
+		for _, k := range ms.W.Reg.Keysets {
+			if k.Real == p.Id {
+				if pk, ok := k.Keys[p.Amount]; ok {
+					key = pk
+					A = hex.EncodeToString(pk.SerializeCompressed())
+				}
+			}
+		}
+		f := map[string]any{"fn": "ProofDleqVerify", "secret": hex.EncodeToString([]byte(p.Secret)), "C": p.C, "A": A, "e": "", "s": "", "r": "", "want": "true", "class": class, "tr": ww.ID, "at": where}
+		switch {
+		case p.DLEQ == nil || key == nil:
+			f["out"] = "missing"
+		default:
+			f["e"], f["s"], f["r"] = p.DLEQ.E, p.DLEQ.S, p.DLEQ.R
+			f["out"] = "false"
+			if nut12.VerifyProofDLEQ(p, key) {
+				f["out"] = "true"
+			}
+		}
+		res = append(res, f)
+	}
+	return res
 }
 
 func sum(p cashu.Proofs) int {
@@ -83,6 +124,32 @@ func sum(p cashu.Proofs) int {
 		t += int(x.Amount)
 	}
 	return t
+}
+
+// dleqAudit logs the NUT-12 proof of every proof a wallet stores (spendable or pending) the first time that
+// (secret, e, s, r) combination is seen: what the wallet persists must still verify for a third party.
+func (ww *WW) dleqAudit(where string) {
+	for name, ws := range ww.Wallets {
+		if ws.W == nil {
+			continue
+		}
+		var all cashu.Proofs
+		all = append(all, ws.Raw.GetProofs()...)
+		for _, dp := range ws.Raw.GetPendingProofs() {
+			all = append(all, cashu.Proof{Amount: dp.Amount, Id: dp.Id, Secret: dp.Secret, C: dp.C, DLEQ: dp.DLEQ})
+		}
+		for _, p := range all {
+			if p.DLEQ == nil {
+				continue
+			}
+			key := name + "|" + p.Secret + "|" + p.C + "|" + p.DLEQ.E + "|" + p.DLEQ.S + "|" + p.DLEQ.R
+			if ww.dleqSeen[key] {
+				continue
+			}
+			ww.dleqSeen[key] = true
+			ww.DleqLog = append(ww.DleqLog, ww.dleqFacts(ww.mintOfKeyset(p.Id), cashu.Proofs{p}, "wallet-store:"+name, where)...)
+		}
+	}
 }
 
 // Exec runs one wallet-world operation and records the event.
